@@ -119,8 +119,29 @@ def apply_edit(model, edit, fresh) -> str:
         model.metadata_props["mk"] = f"{b % 3}"
         n.meta["ir_only"] = b
     elif kind == "attr_set":
-        which = b % 5
-        if which == 0:
+        which = b % 13
+        if which == 5:
+            n.attributes["extra_str"] = ir.AttrString("extra_str", ["", "text", "üñí"][(b >> 4) % 3])
+        elif which == 6:
+            n.attributes["extra_fl"] = ir.AttrFloat32("extra_fl", [0.0, -1.5, 3.25][(b >> 4) % 3])
+        elif which == 7:
+            n.attributes["extra_is"] = ir.AttrInt64s("extra_is", [[], [1], [-(2**40), 0, 7]][(b >> 4) % 3])
+        elif which == 8:
+            n.attributes["extra_ts"] = ir.AttrTensors("extra_ts", [ir.Tensor(np.arange(k + 1, dtype=np.float32), name=fresh("ats")) for k in range((b >> 4) % 3)])
+        elif which == 9:
+            n.attributes["extra_tp"] = ir.AttrTypeProto("extra_tp", ir.TypeAndShape(ir.TensorType(ir.DataType.INT8), ir.Shape([1, "n"]) if (b >> 4) % 2 else None))
+        elif which == 10:
+            n.attributes["extra_tps"] = ir.AttrTypeProtos("extra_tps", [ir.TypeAndShape(ir.SequenceType(ir.TensorType(ir.DataType.FLOAT)), None), ir.TypeAndShape(ir.TensorType(ir.DataType.BOOL), ir.Shape([]))][: 1 + (b >> 4) % 2])
+        elif which == 11:
+            n.attributes["extra_fs_empty"] = ir.AttrFloat32s("extra_fs_empty", [])
+        elif which == 12:
+            # inside a function: a reference to one of the function's own attributes
+            owner = next((f for f in model.functions.values() if any(x is n for x in f.all_nodes())), None)
+            if owner is None or not owner.attributes:
+                return "noop"
+            nm = list(owner.attributes)[(b >> 4) % len(owner.attributes)]
+            n.attributes["extra_ref"] = ir.RefAttr("extra_ref", nm, owner.attributes[nm].type)
+        elif which == 0:
             n.attributes["extra_i"] = ir.AttrInt64("extra_i", b % 7)
         elif which == 1:
             n.attributes["extra_s"] = ir.AttrStrings("extra_s", ["a", "b"][: 1 + b % 2])
